@@ -171,6 +171,17 @@ class _Groups:
                 x.func.attr == 'values' and not x.args and \
                 self.role(x.func.value, fr) == 'groups':
             return ['groups']
+        if isinstance(x, ast.Call) and not x.keywords and x.args and \
+                ast.unparse(x.func) in ('chain', 'itertools.chain') and \
+                not any(isinstance(a, ast.Starred) for a in x.args):
+            # chain(a, b): the lists of a, then those of b
+            out = []
+            for a in x.args:
+                r = self.lists(a, fr, depth + 1)
+                if r is None:
+                    return None
+                out += r
+            return out
         if isinstance(x, (ast.ListComp, ast.GeneratorExp)) and \
                 len(x.generators) == 1 and not x.generators[0].ifs:
             gen = x.generators[0]
